@@ -43,9 +43,13 @@ type ProviderCache struct {
 	// readers. A refresh that is canceled part-way updates write entries
 	// without publishing them; they are published by the next refresh that
 	// completes.
-	pubSeq    uint
-	write     map[peer.ID]*cacheInfo
-	writeLock chan struct{}
+	pubSeq uint
+	// refreshGen counts completed refreshes. A Refresh that finds the write
+	// lock taken uses it to tell whether the writer it waited for was another
+	// refresh (nothing more to do) or a lookup miss being fetched.
+	refreshGen atomic.Uint64
+	write      map[peer.ID]*cacheInfo
+	writeLock  chan struct{}
 
 	needsRefresh atomic.Bool
 	refreshIn    time.Duration
@@ -263,13 +267,20 @@ func (pc *ProviderCache) Refresh(ctx context.Context) error {
 	select {
 	case pc.writeLock <- struct{}{}:
 	default:
-		// Refresh already in progress, wait for it to finish.
+		// Another writer is active, wait for it to finish.
+		gen := pc.refreshGen.Load()
 		select {
 		case pc.writeLock <- struct{}{}:
-			<-pc.writeLock
 		case <-ctx.Done():
+			return ctx.Err()
 		}
-		return ctx.Err()
+		if pc.refreshGen.Load() != gen {
+			// A refresh completed while waiting, nothing more to do.
+			<-pc.writeLock
+			return ctx.Err()
+		}
+		// The writer was a lookup miss being fetched, which refreshes
+		// nothing, so do the refresh now.
 	}
 	defer func() {
 		<-pc.writeLock
@@ -353,6 +364,7 @@ func (pc *ProviderCache) Refresh(ctx context.Context) error {
 		}
 	}
 	pc.pubSeq = seq
+	pc.refreshGen.Add(1)
 
 	// If the update map is small relative to the main map, do not generate a
 	// new main map yet.
